@@ -191,15 +191,38 @@ pub fn png_forward(x: &[u8], tags: &[u8], bpp: usize, rb: usize) -> Vec<u8> {
     }
     o
 }
-pub fn tiff_forward8(x: &[u8], colors: usize, rb: usize) -> Vec<u8> {
+/// TIFF 6.0 section 14 horizontal differencing, written over the row as a bit string (independent of the
+/// library's byte/shift code and of the Coq digit spec): sample k of a row occupies bits [k*bpc, (k+1)*bpc),
+/// most significant bit first; padding bits of the output are zero.
+pub fn tiff_forward(x: &[u8], colors: usize, samples: usize, bpc: usize, rb: usize) -> Vec<u8> {
     let mut o = Vec::new();
     if rb == 0 { return o; }
+    let get = |row: &[u8], k: usize| -> u32 {
+        let mut v = 0u32;
+        for b in k * bpc..(k + 1) * bpc { v = (v << 1) | ((row[b / 8] >> (7 - b % 8)) & 1) as u32; }
+        v
+    };
     for row in x.chunks(rb) {
-        for i in 0..row.len() {
-            o.push(if i < colors { row[i] } else { row[i].wrapping_sub(row[i - colors]) });
+        let mut out = vec![0u8; row.len()];
+        for k in 0..samples {
+            let cur = get(row, k);
+            let left = if k < colors { 0 } else { get(row, k - colors) };
+            let d = cur.wrapping_sub(left) & ((1u32 << bpc) - 1);
+            for t in 0..bpc {
+                let b = k * bpc + t;
+                if (d >> (bpc - 1 - t)) & 1 == 1 { out[b / 8] |= 0x80 >> (b % 8); }
+            }
         }
+        o.extend_from_slice(&out);
     }
     o
+}
+/// clear the padding bits after the last sample of every row (the reference form of sub-byte image data)
+pub fn tiff_canon(x: &mut [u8], bits: usize, rb: usize) {
+    if rb == 0 { return; }
+    for row in x.chunks_mut(rb) {
+        for b in bits..row.len() * 8 { row[b / 8] &= !(0x80u8 >> (b % 8)); }
+    }
 }
 
 // ------------------------------------------------------------------ case plumbing
@@ -415,7 +438,7 @@ fn encode_stage(r: &mut Rng, f: &'static str, x: &[u8], pred: Option<(i64, i64, 
             tags = (0..rows).map(|_| if pr == 15 || r.chance(1, 3) { r.below(5) as u8 } else { (pr - 10).min(4) as u8 }).collect();
             mid = png_forward(x, &tags, bpp, rb);
         } else if pr == 2 {
-            mid = tiff_forward8(x, cl as usize, rb);
+            mid = tiff_forward(x, cl as usize, (co * cl) as usize, bp as usize, rb);
         }
     }
     if let Some(e) = ec { p.insert("ec".into(), json!(e)); }
@@ -466,7 +489,7 @@ fn ref_case(r: &mut Rng, x: &[u8], chain: &[&'static str], pred: Option<(i64, i6
 fn pred_params(r: &mut Rng, full: bool) -> (i64, i64, i64, i64) {
     let pr = *r.pick(&[2i64, 10, 11, 12, 13, 14, 15, 15, 12]);
     let cl = r.range(1, 4) as i64;
-    let bp = if pr == 2 { 8 } else { *r.pick(&[1i64, 2, 4, 8, 8, 16]) };
+    let bp = *r.pick(&[1i64, 2, 4, 8, 8, 16]);
     let co = if full { r.range(1, 64) } else { r.range(1, 9) } as i64;
     (pr, co, cl, bp)
 }
@@ -502,7 +525,11 @@ pub fn generate(ctx: &Ctx, s: &mut Sink) {
         let mut x = gen_bytes(&mut r, n);
         let last = chain[len - 1];
         let pred = if (last == "LZWDecode" || last == "FlateDecode") && r.chance(1, 2) { Some(pred_params(&mut r, false)) } else { None };
-        if let Some((_, co, cl, bp)) = pred { let rb = ((co * cl * bp + 7) / 8) as usize; x.truncate(x.len() / rb * rb); }
+        if let Some((pr, co, cl, bp)) = pred {
+            let rb = ((co * cl * bp + 7) / 8) as usize;
+            x.truncate(x.len() / rb * rb);
+            if pr == 2 { tiff_canon(&mut x, (co * cl * bp) as usize, rb); }
+        }
         let ec = *r.pick(&[None, Some(1), Some(0)]);
         let c = ref_case(&mut r, &x, &chain, pred, ec, None);
         emit_case(s, &c, &format!("chain{len}"));
@@ -513,11 +540,41 @@ pub fn generate(ctx: &Ctx, s: &mut Sink) {
         let (pr, co, cl, bp) = pred_params(&mut r, true);
         let rb = ((co * cl * bp + 7) / 8) as usize;
         let rows = r.range(0, if rb > 100 { 3 } else { 6 }) as usize;
-        let x = gen_bytes(&mut r, rows * rb);
+        let mut x = gen_bytes(&mut r, rows * rb);
+        if pr == 2 { tiff_canon(&mut x, (co * cl * bp) as usize, rb); }
         let f = if i % 2 == 0 { "FlateDecode" } else { "LZWDecode" };
         let ecp = if f == "LZWDecode" { *r.pick(&[None, Some(0)]) } else { None };
         let c = ref_case(&mut r, &x, &[f], Some((pr, co, cl, bp)), ecp, None);
-        emit_case(s, &c, &format!("pred{}", if pr == 2 { "_tiff".into() } else { format!("_png_bpc{bp}") }));
+        emit_case(s, &c, &format!("pred{}", if pr == 2 { format!("_tiff_bpc{bp}") } else { format!("_png_bpc{bp}") }));
+    }
+    // TIFF predictor 2, small and systematic: every depth x colours 1..4 x columns 1..5 x wrap-prone rows
+    // (all ones: every difference but the first wraps; ramps; alternating extremes; random)
+    for bp in [1i64, 2, 4, 8, 16] {
+        for cl in 1..=4i64 { for co in 1..=5i64 {
+            let rb = ((co * cl * bp + 7) / 8) as usize;
+            for pat in 0..(if th { 6 } else { 4 }) {
+                let rows = 1 + (pat as usize + co as usize) % 3;
+                let mut x: Vec<u8> = match pat {
+                    0 => vec![0xFF; rows * rb],
+                    1 => (0..rows * rb).map(|i| (i * 37 + 1) as u8).collect(),
+                    2 => (0..rows * rb).map(|i| if i % 2 == 0 { 0 } else { 0xFF }).collect(),
+                    _ => r.bytes(rows * rb),
+                };
+                tiff_canon(&mut x, (co * cl * bp) as usize, rb);
+                let f = if (pat + co as u64 + cl as u64) % 2 == 0 { "FlateDecode" } else { "LZWDecode" };
+                let c = ref_case(&mut r, &x, &[f], Some((2, co, cl, bp)), None, None);
+                emit_case(s, &c, &format!("tiff_small_bpc{bp}"));
+            }
+        }}
+    }
+    // TIFF predictor 2 on data that is not an image of the declared shape (row size does not divide the length,
+    // unsupported depth, zero/negative sizes): unbounded keeps the undecoded data, bounded reports the error
+    for (co, cl, bp, n) in [(3i64, 1i64, 8i64, 7usize), (2, 2, 4, 5), (1, 1, 3, 4), (1, 1, 0, 4), (0, 1, 8, 4), (1, 0, 8, 4), (1, -1, 8, 4),
+                            (i64::MAX, 2, 8, 4), (1 << 40, 1 << 30, 16, 6), (4, 1, 16, 8), (4, 1, 16, 9), (1, 1, 32, 4), (5, 1, 1, 0)] {
+        let d = r.bytes(n);
+        let e = enc_flate(&d, 6);
+        emit_case(s, &json!({"filters": ["FlateDecode"], "fname": true, "dp": {"pr": 2, "co": co, "cl": cl, "bp": bp}, "data": hex(&e),
+                             "lims": [0, 1, n as u64, n as u64 + 1, 64]}), "tiff_not_an_image");
     }
     // exhaustive small: all 5 tags x tie-prone rows (Paeth ties, Average carries)
     for t in 0..5u8 {
